@@ -21,12 +21,12 @@ The code:
 
 ```go
 upstreamTarget := r.Config.GetHoneycombAPI()
-forwarded := req.Header.Get("X-Forwarded-For")                         -- first value only
+forwarded := strings.Join(req.Header.Values("X-Forwarded-For"), ", ")  -- every line (commit 1274516)
 upstreamReq, _ := http.NewRequest(req.Method, upstreamTarget+req.URL.String(), buf)
 for header, vals := range req.Header { upstreamReq.Header.Set(header, strings.Join(vals, ",")) }
 if forwarded != "" { Set("X-Forwarded-For", forwarded+", "+req.RemoteAddr) } else { Set(…, req.RemoteAddr) }
 resp, err := r.proxyClient.Do(upstreamReq)            -- an http.Client: follows redirects
-for header, vals := range resp.Header { w.Header().Set(header, strings.Join(vals, ",")) }
+for header, vals := range resp.Header { w.Header()[header] = vals }     -- line for line (commit ceac3fa)
 w.WriteHeader(resp.StatusCode); io.Copy(w, resp.Body)
 ```
 
@@ -64,11 +64,14 @@ structure Resp where
   body : String
   deriving Repr, DecidableEq
 
-/-- `strings.Join(vals, ",")` -/
-def joinVals : List String → String
+/-- `strings.Join(vals, sep)` -/
+def joinSep (sep : String) : List String → String
   | [] => ""
   | [v] => v
-  | v :: w :: vs => v ++ "," ++ joinVals (w :: vs)
+  | v :: w :: vs => v ++ sep ++ joinSep sep (w :: vs)
+
+/-- `strings.Join(vals, ",")` -/
+def joinVals (vs : List String) : String := joinSep "," vs
 
 /-- The field value of a header in the sense of RFC 7230 §3.2.2: the values of all lines with
 that name, in order, combined with commas.  `none`: no such header. -/
@@ -90,9 +93,13 @@ def xffName : String := "X-Forwarded-For"
 def urlString (r : Req) : String :=
   r.path ++ (if r.forceQuery || r.rawQuery != "" then "?" ++ r.rawQuery else "")
 
-/-- the `X-Forwarded-For` value the code computes -/
+/-- `Header.Values`: all lines with that name, none when there is no such header. -/
+def headerValues (h : Headers) (n : String) : List String := (AList.get h n).getD []
+
+/-- the `X-Forwarded-For` value the code computes: all the client's lines joined by ", ", then the
+remote address -/
 def xffValue (r : Req) : String :=
-  let fwd := headerGet r.headers xffName
+  let fwd := joinSep ", " (headerValues r.headers xffName)
   if fwd != "" then fwd ++ ", " ++ r.remoteAddr else r.remoteAddr
 
 /-- The upstream request the handler builds. -/
@@ -102,10 +109,14 @@ def relay (target : String) (r : Req) : UpReq :=
     headers := AList.put (copyHeaders r.headers []) xffName [xffValue r]
     body := r.body }
 
+/-- `for header, vals := range src { dst[header] = vals }` -/
+def copyLines (src dst : Headers) : Headers :=
+  src.foldl (fun acc nv => AList.put acc nv.1 nv.2) dst
+
 /-- What the handler writes to the client for the response `Do` returned; `defaults` is what the
 `setResponseHeaders` middleware had already put into `w.Header()`. -/
 def relayBack (defaults : Headers) (rs : Resp) : Resp :=
-  { status := rs.status, headers := copyHeaders rs.headers defaults, body := rs.body }
+  { status := rs.status, headers := copyLines rs.headers defaults, body := rs.body }
 
 /-! ## `http.Client.Do` -/
 
@@ -172,6 +183,12 @@ def serve (follow : Bool) (defaults : Headers) (target : String)
 
 /-- appending one address to an `X-Forwarded-For` field value -/
 def appendAddr (old addr : String) : String := if old != "" then old ++ ", " ++ addr else addr
+
+/-- The `X-Forwarded-For` lines a client sent; a lone empty line says nothing and counts as none. -/
+def xffLines (h : Headers) : List String :=
+  match AList.get h xffName with
+  | none => []
+  | some vs => if vs = [""] then [] else vs
 
 /-- The meaning of the `Set-Cookie` lines of a response: one cookie per line (RFC 6265 §3; the
 RFC 7230 list rule explicitly does not apply to this header). -/
